@@ -1,4 +1,5 @@
 import WfModel.Handlers
+import WfProofs.HandlerLayout
 import WfModel.Serial
 import WfProofs.RunnerRecovery
 import WfProofs.RunnerSend
@@ -126,6 +127,65 @@ theorem C08_wildcard_otherwise (steps : List Nat) (hs : List Decl) (s : Nat) (w 
     exact hun c.2 (by rw [← this]; exact hc')
   rw [hnone, hw]
   simp [hs1, hs2]
+
+/-! ## which layouts are accepted (`validate_catch_error_handlers`) -/
+
+theorem C08.claims_of_mem {hs : List Decl} {d : Decl} {l : List Nat} {t : Nat}
+    (hd : d ∈ hs) (hf : d.forSteps = some l) (ht : t ∈ l) : (t, d.name) ∈ claims hs := by
+  simp only [claims, List.mem_flatMap, List.mem_map, Prod.mk.injEq]
+  exact ⟨d, hd, t, by simpa [hf] using ht, rfl, rfl⟩
+
+/-- a layout is accepted exactly when validation has no message for it and every budget is at least one -/
+theorem C08_layout_accepted_iff_no_errors (steps : List Nat) (hs : List Decl) :
+    valid steps hs = true ↔ errors steps hs = [] ∧ ∀ h ∈ hs, 1 ≤ h.maxRec :=
+  valid_iff_errors steps hs
+
+/-- **a layout in which a handler lists a handler step -- another scoped handler, the wildcard
+handler, itself -- is rejected**, whatever else it declares -/
+theorem C08_layout_covering_handler_rejected (steps : List Nat) (hs : List Decl) (d : Decl) (l : List Nat) (t : Nat)
+    (hd : d ∈ hs) (hf : d.forSteps = some l) (ht : t ∈ l) (hh : t ∈ names hs) : valid steps hs = false := by
+  cases hv : valid steps hs with
+  | false => rfl
+  | true =>
+    simp only [valid, Bool.and_eq_true, List.all_eq_true, decide_eq_true_eq] at hv
+    obtain ⟨⟨⟨_, hcl⟩, _⟩, _⟩ := hv
+    have := (hcl (t, d.name) (C08.claims_of_mem hd hf ht)).2
+    simp [hh] at this
+
+example : valid [0, 12, 13] [⟨12, none, 1⟩, ⟨13, some [12], 1⟩] = false := by decide
+example : valid [0, 12, 13] [⟨12, some [0], 1⟩, ⟨13, some [12], 1⟩] = false := by decide
+example : valid [0, 12] [⟨12, some [0, 12], 2⟩] = false := by decide
+example : valid [0, 12, 13] [⟨12, some [0], 1⟩, ⟨13, none, 1⟩] = true := by decide
+
+/-- the wildcard handler listed by a scoped handler (the layout of `@catch_error` + `@catch_error(for_steps=[<it>])`) -/
+theorem C08_layout_scoped_over_wildcard_rejected (steps : List Nat) (hs : List Decl) (w d : Decl) (l : List Nat)
+    (hw : w ∈ hs) (hwf : w.forSteps = none) (hd : d ∈ hs) (hf : d.forSteps = some l) (ht : w.name ∈ l) :
+    valid steps hs = false :=
+  C08_layout_covering_handler_rejected steps hs d l w.name hd hf ht (List.mem_map.mpr ⟨w, hw, rfl⟩)
+
+/-- ... and validation says so: the message "handler d cannot cover another handler step t" is among its messages
+(when `t` is a step at all -- handler names always are) -/
+theorem C08_layout_covering_handler_reported (steps : List Nat) (hs : List Decl) (d : Decl) (l : List Nat) (t : Nat)
+    (hd : d ∈ hs) (hf : d.forSteps = some l) (ht : t ∈ l) (hh : t ∈ names hs) (hst : t ∈ steps) :
+    LayoutErr.coversHandler d.name t ∈ errors steps hs := by
+  unfold errors
+  exact List.mem_append_right _ (coversHandler_mem_claimErrs steps (names hs) (claims hs) [] t d.name
+    (C08.claims_of_mem hd hf ht) hst hh)
+
+example : errors [0, 12, 13] [⟨12, none, 1⟩, ⟨13, some [12], 1⟩] = [.coversHandler 13 12] := by decide
+example : errors [0, 5, 12, 13, 14] [⟨12, none, 1⟩, ⟨13, some [5, 12, 9], 1⟩, ⟨14, some [5], 1⟩, ⟨15, none, 1⟩] =
+    [.wildcards 2, .coversHandler 13 12, .unknown 13 9, .claimedTwice 5 13 14] := by decide
+
+/-- an accepted layout gives no handler step an owner: the table has no entry under a handler's name, so the failure of
+a handler step -- wildcard or scoped -- finds no handler (`C08_fail` then fails the run with the handler's own exception) -/
+theorem C08_accepted_layout_handler_steps_unowned (steps : List Nat) (hs : List Decl) (hv : valid steps hs = true)
+    (s : Nat) (hs1 : s ∈ names hs) : handlerFor steps hs s = none := by
+  cases hh : handlerFor steps hs s with
+  | none => rfl
+  | some h => exact absurd hs1 (C08_never_handler_of_handler steps hs hv s h hh)
+
+example : handlerFor [0, 12, 13] [⟨12, some [0], 1⟩, ⟨13, none, 1⟩] 12 = none ∧
+    handlerFor [0, 12, 13] [⟨12, some [0], 1⟩, ⟨13, none, 1⟩] 0 = some 12 := by decide
 
 /-! ## routing in the reducer -/
 
